@@ -229,12 +229,9 @@ func (r *Report) Finish(verifDir string) int {
 			"exhaustive":       false,
 			"technique_family": "static analysis (go/types + go/ssa); no orb code is executed",
 		},
-		"assumptions": r.Assumptions,
+		"assumptions": append([]string{}, r.Assumptions...),
 		"wall_s":      time.Since(r.Start).Seconds(),
 		"violations":  nviol,
-	}
-	if ev["assumptions"] == nil {
-		ev["assumptions"] = []string{}
 	}
 	b, _ := json.MarshalIndent(ev, "", " ")
 	if err := os.WriteFile(filepath.Join(evDir, r.Property+".json"), b, 0o644); err != nil {
